@@ -30,15 +30,17 @@ STREAMS = {
     'flat': lambda: helpers11.Knobs(),
     'flat-clash': lambda: helpers11.Knobs(p_clash=0.9, p_remove=0.25, p_override=0.4, p_odd_event=0.15, max_models=2),
     'hsm': lambda: hsm11.HKnobs(),
+    'hsm-remove': lambda: hsm11.HKnobs(p_remove=0.5, p_local=0.9, p_custom_sep=0.2, p_embed=0.3),
     'hsm-custom-sep': lambda: hsm11.HKnobs(p_custom_sep=1.0, p_clash=0.35, p_override=0.25),
     'hsm-enum': lambda: hsm11.HKnobs(p_enum=1.0, p_clash=0.2, p_override=0.1, p_children=0.6),
 }
 BUDGET = {   # stream -> (quick: chunks, per chunk), (thorough: chunks, per chunk)
-    'flat': ((12, 60), (48, 280)),
-    'flat-clash': ((4, 60), (16, 200)),
-    'hsm': ((12, 12), (48, 75)),
-    'hsm-custom-sep': ((4, 10), (16, 55)),
-    'hsm-enum': ((4, 10), (16, 40)),
+    'flat': ((12, 60), (48, 190)),
+    'flat-clash': ((4, 60), (16, 130)),
+    'hsm': ((12, 12), (48, 50)),
+    'hsm-custom-sep': ((4, 10), (16, 36)),
+    'hsm-remove': ((4, 12), (16, 34)),
+    'hsm-enum': ((4, 10), (16, 28)),
 }
 
 
@@ -225,7 +227,7 @@ class C11(runner.Check):
                 'TM.Helpers.C11_event_method_eq_trigger', 'TM.Helpers.C11_event_method_exists',
                 'TM.Helpers.C11_trigger_exists',
                 'TM.Helpers.C11_to_iff_auto', 'TM.Helpers.C11_get_triggers_exact', 'TM.Helpers.C11_get_transitions_exact',
-                'TM.Helpers.C11_get_triggers_nested', 'TM.Helpers.C11_get_transitions_nested',
+                'TM.Helpers.C11_get_triggers_nested', 'TM.Helpers.C11_fires_known', 'TM.Helpers.C11_get_transitions_nested',
                 'TM.Helpers.C11_no_overwrite', 'TM.Helpers.C11_override_only_replaces',
                 'TM.Helpers.C11_checked_assignment', 'TM.Helpers.C11_wrapper_binding',
                 'TM.Helpers.C11_trigger_ne_attribute', 'TM.Helpers.C11_names_injective')
